@@ -130,14 +130,19 @@ def k2_end_to_end(s1: str, s2: str, f1: int, f2: int, dedup: bool) -> bool:
     pre: 1 <= f1 <= 2 and 1 <= f2 <= 2
     post: __return__
     """
-    ex = Examples([s1, s2], [f1, f2])
+    # a third, concrete example 'aa' (matched by ^a+$ only) so that an expression can be listed second with fewer
+    # NEW examples than examples it matches
+    if s1 == 'aa' or s2 == 'aa':
+        return True
+    ex = Examples([s1, s2, 'aa'], [f1, f2, 2])
     res = rex_full_incremental_coverage(list(MENU), ex, sort_on_deduped=dedup)
-    cov = [(s, f) for s, f in ((s1, f1), (s2, f2)) if any(_ref_match(j, s) for j in range(len(MENU)))]
+    cov = [(s, f) for s, f in ((s1, f1), (s2, f2), ('aa', 2))
+           if any(_ref_match(j, s) for j in range(len(MENU)))]
     if sum(v.incr for v in res.values()) != sum(f for s, f in cov):
         return False
     if sum(v.incr_uniq for v in res.values()) != len(cov):
         return False
-    simple = rex_incremental_coverage(list(MENU), Examples([s1, s2], [f1, f2]), sort_on_deduped=dedup)
+    simple = rex_incremental_coverage(list(MENU), Examples([s1, s2, 'aa'], [f1, f2, 2]), sort_on_deduped=dedup)
     return list(simple.items()) == [(k, (v.incr_uniq if dedup else v.incr)) for k, v in res.items()]
 
 
@@ -189,7 +194,7 @@ def _obs():
                   timeout=240))
     obs.append(Ob('K2', 'k2_end_to_end', 'rex_full_incremental_coverage / rex_incremental_coverage on real matching: '
                   'credits sum to the matched examples; the simple form is the projection of the full form',
-                  '2 distinct symbolic strings len<=2, frequencies 1..2', timeout=300))
+                  '2 distinct symbolic strings len<=2 (frequencies 1..2) + the concrete example aa x2', timeout=400))
     for ad in (False, True):
         for reme in (False, True):
             for st in (False, True):
